@@ -125,10 +125,24 @@ def implCC (d : CcDesc) : ThriftParquet.ColumnChunk := { fileOffset := (d.off : 
 def implRG (g : RgDesc2) : ThriftParquet.RowGroup :=
   { columns := g.chunks.map implCC, totalByteSize := (g.totalByteSize : Int), numRows := (g.numRows : Int) }
 
+def implUnit : Schema.AnnotTimeUnit → ThriftParquet.TimeUnit
+  | .millis => .millis | .micros => .micros | .nanos => .nanos
+
+/-- the `carquet_logical_type_t` carquet's parser makes of a LogicalType union that states the annotation -/
+def implLogical : Schema.Annotation → ThriftParquet.LogicalType
+  | .string => .string | .map => .map | .list => .list | .enum => .enum
+  | .decimal s p => .decimal s p
+  | .date => .date
+  | .time utc u => .time utc (implUnit u)
+  | .timestamp utc u => .timestamp utc (implUnit u)
+  | .integer bw sg => .integer bw sg
+  | .nullType => .null | .json => .json | .bson => .bson | .uuid => .uuid | .float16 => .float16
+
 def implSE (e : Schema.Element) : ThriftParquet.SchemaElement :=
   { type := e.info.ptype.map (fun n => (n : Int)), typeLength := e.info.typeLength,
     repetition := e.info.rep.map repCode, name := some (ThriftParquet.cstr (strBytes e.info.name)),
-    numChildren := e.numChildren, convertedType := e.info.logical.map (fun n => (n : Int)) }
+    numChildren := e.numChildren, convertedType := e.info.logical.map (fun n => (n : Int)),
+    logicalType := e.info.logicalType.map implLogical }
 
 /-! ### what carquet's Thrift reader bounds (defined next to the reader model, Impl/ReaderClaim.lean) -/
 
